@@ -6,7 +6,7 @@ cd /repo || exit 2
 if ! git diff --quiet; then echo "/repo dirty"; exit 2; fi
 git apply "$d/patch.diff" || { echo "patch does not apply"; exit 2; }
 cd /verif
-VERIF_NOEVIDENCE=1 bin/check "$id" --tier "$tier" > /tmp/try_seed_$$.log 2>&1
+VERIF_CACHE=/var/tmp/pysph-verif-seed VERIF_NOEVIDENCE=1 bin/check "$id" --tier "$tier" > /tmp/try_seed_$$.log 2>&1
 rc=$?
 cd /repo && git checkout -- . 
 grep -E "^VIOLATION|^KNOWN|tier=" /tmp/try_seed_$$.log | head -8
